@@ -32,6 +32,8 @@ EdgeIds == {"doc_on_alias", "f_direct", "f_list", "f_map_nullable", "parent", "s
 
 Types  == {"S1", "S2", "S3", "S4", "S5", "S6", "S7", "S8", "U1", "T1"}
 NsOf(n) == IF n \in {"T1", "q1"} THEN "nsb" ELSE "nsa"
+\* q1 is the route of nsb; in the spec text it is WRITTEN r3, like the route r3 of nsa: a route is identified by its
+\* namespace, name and version, not by name and version alone
 Routes == {"r1", "r3", "q1", "r4"}
 
 \* dependency edges of the skeleton under switch set e: <<from, to>>; nodes are type names,
